@@ -3,7 +3,7 @@ CONSTANTS Addrs <- McAddrs
  InitStable <- McInitStable
  AddrN = 1
  Mixed = FALSE
- MaxBlocks = 4
+ MaxBlocks = 3
  MaxWrites = 1
  MaxStable = 2
  MaxRestart = 0
@@ -11,7 +11,7 @@ CONSTANTS Addrs <- McAddrs
  LeafOnly = TRUE
  MaxSlots = 2
  CanonSlots = TRUE
- Kinds = {"extra"}
+ Kinds = {"miner", "vroot", "txroot", "logroot", "gaslimit", "gasused", "time", "deputyroot", "extra"}
  IdentByHash = TRUE
 INVARIANTS TypeOK ViewIsNearestWrite ForksIsolated PersistEqualsStableView
 PROPERTIES PruneExact WriteLocal ReadPure AttrInert
